@@ -14,7 +14,7 @@ from mc.runner import Stats
 ID = "C33"
 LEVEL = "exploration"
 TECHNIQUE = "bounded-exhaustive byte-string enumeration and seed mutation under a step budget"
-RULE = ("each input is decoded by the real Message.fromStr under a sys.settrace line counter (budget 150000 lines; the largest "
+RULE = ("each input is decoded by the real Message.fromStr under a sys.settrace line counter (budget 20000 lines; the largest "
         "legitimate decode in the space is reported as counter max_lines_max); allowed outcomes: a message, EOFError, "
         "ValueError. Families: (a) 12-byte headers with section counts in {0,1,2}^4 + every tail of <= L bytes over "
         "{00,01,02,0c,3f,40,c0,ff}; (r) one answer record of every record type (and two unassigned ones) with rdlength in "
@@ -23,18 +23,18 @@ RULE = ("each input is decoded by the real Message.fromStr under a sys.settrace 
         "every position x 8 values substituted and inserted, every rdlength 0..len+3 x every rdata position x 8 values, every "
         "2-byte window replaced by a pointer to every offset of the message; (c) pointer graphs: every name region of <= P "
         "bytes over {00,01,'a',c0,0c,0d,0e} placed at offset 12 (c0 0c..0e point into the region: self loops, mutual cycles, "
-        "pointers into pointers) as a question name that a second question points back into, and as an NS record's rdata name. "
+        "pointers into pointers) as a question name that a second question points back into, and (quick: <= P-1 bytes) as the owner of an NS record whose rdata and a following record point back into it. "
         "non-trivial = input whose decode followed a compression pointer, hit EOF inside a record, raised ValueError, or "
         "produced at least one record")
 BOUNDS = {"quick": "L = 3, P = 6, pair mutations restricted to rdlength x rdata",
           "thorough": "L = 4, P = 7, plus every pair of positions of each seed's record x {00,0c,c0,ff}^2"}
-ASSUMPTIONS = ["termination is decided by a step budget ~100x above the costliest legitimate decode of the space, not by a proof",
+ASSUMPTIONS = ["termination is decided by a step budget ~35x above the costliest legitimate decode of the space, not by a proof",
                "Message.fromStr is the decode entry point of both protocols (checked against datagramReceived/dataReceived at "
                "run time: family (b) seeds are also pushed through both protocol classes)"]
-MIN = {"quick": {"evaluations": 400000, "nontrivial": 100000, "outcomes": 3},
-       "thorough": {"evaluations": 3000000, "nontrivial": 1000000, "outcomes": 3}}
+MIN = {"quick": {"evaluations": 440000, "nontrivial": 350000, "outcomes": 4},
+       "thorough": {"evaluations": 2700000, "nontrivial": 2100000, "outcomes": 4}}
 
-BUDGET = 150000
+BUDGET = 20000
 VALS = [0x00, 0x01, 0x02, 0x0C, 0x3F, 0x40, 0xC0, 0xFF]
 PVALS = [0x00, 0x01, 0x61, 0xC0, 0x0C, 0x0D, 0x0E]
 RTYPES = list(range(1, 19)) + [28, 33, 35, 38, 39, 41, 44, 99, 249, 250, 19, 65280]
@@ -42,6 +42,20 @@ RTYPES = list(range(1, 19)) + [28, 33, 35, 38, 39, 41, 44, 99, 249, 250, 19, 652
 
 class StepBudgetExceeded(BaseException):
     pass
+
+
+def looping_function(frame):
+    """Innermost active function that contains a loop (so that the signature does not depend on which helper the
+    budget happened to run out in)."""
+    import dis
+    f = frame
+    while f is not None:
+        ops = {i.opname for i in dis.get_instructions(f.f_code)}
+        if ops & {"JUMP_BACKWARD", "JUMP_BACKWARD_NO_INTERRUPT", "FOR_ITER", "JUMP_ABSOLUTE"}:
+            break
+        f = f.f_back
+    code = (f or frame).f_code
+    return getattr(code, "co_qualname", code.co_name)
 
 
 def decode(data, budget=BUDGET):
@@ -54,8 +68,7 @@ def decode(data, budget=BUDGET):
         if event == "line":
             count[0] += 1
             if count[0] > budget:
-                code = frame.f_code
-                raise StepBudgetExceeded(getattr(code, "co_qualname", code.co_name))
+                raise StepBudgetExceeded(looping_function(frame))
         return local
 
     def glob(frame, event, arg):
@@ -187,9 +200,10 @@ def family_c(P):
             r = bytes(region)
             # question name = region; a second question whose name points back to offset 12
             yield ("c:question", header(2, 0, 0, 0) + r + tailq + b"\xc0\x0c" + tailq)
-            # NS record with root owner: rdata name = region placed at 12 + 11 -> use pointers relative to 12 only when
-            # the region itself sits at offset 12, so put the record first and pad the owner differently:
-            # owner is the region (at 12), rdata is a pointer into it
+            # the region is the owner (at offset 12) of an NS record whose rdata points into it (c0 0d); a second
+            # record's owner (c0 0c) and CNAME rdata (c0 0e) point into it as well
+            if n == P and P == 6:
+                continue            # quick tier: the record placement stops one byte earlier than the question placement
             yield ("c:owner", header(0, 2, 0, 0) + r + struct.pack("!HHIH", 2, 1, 0, 2) + b"\xc0\x0d"
                    + b"\xc0\x0c" + struct.pack("!HHIH", 5, 1, 0, 2) + b"\xc0\x0e")
 
@@ -266,6 +280,12 @@ def run_shard(shard, tier, seed):
             st.sample({"family": tag, "input": data.hex(), "outcome": outcome})
         for sig, detail in judge(tag, data, outcome, lines, where):
             st.violation(sig, detail, {"family": tag, "data": data.hex()})
+        if outcome == "budget":
+            st.count("budget_exceeded")
+            if st.counters["budget_exceeded"] >= 25:
+                st.exhaustive = False
+                st.notes.append("C33: shard %r stopped after 25 inputs exceeded the step budget (already a violation)" % (shard,))
+                break
     if fam == "b" and j == 0:
         through_protocols(st)
     st.counters["max_lines_max"] = maxlines
